@@ -9,7 +9,7 @@ func init() {
 	Props["C01"] = &PropSpec{
 		Level:       "other",
 		Rules:       []string{"R05", "R08", "R06", "R07", "R03", "R04", "R01", "R18b", "R43", "R35"},
-		Explanation: "Crossing-freedom is the snap-rounding theorem applied to this implementation; its premises are decided for all polygons, levels, flags and grids: (i) the hot-pixel set holds the pixel of every vertex of every ring before any edge is routed and only insertCoord writes it (R05, R08), (ii) every edge including each ring's closing edge is routed through the index, and routed points — never input points — are what is emitted (R06, R07), (iii) pixel ownership (left/bottom owned) is encoded consistently in all six places, lineIntersects applies each border rule under the facts it belongs to, and conversions are index-aligned (R03, R01); (iv) the routed lists of different levels never share storage (R18b).",
+		Explanation: "Crossing-freedom is the snap-rounding theorem applied to this implementation; its premises are decided for all polygons, levels, flags and grids: (i) the hot-pixel set holds the pixel of every vertex of every ring before any edge is routed and only insertCoord writes it (R05, R08), (ii) every edge including each ring's closing edge is routed through the index, and routed points — never input points — are what is emitted (R06, R07), (iii) pixel ownership (left/bottom owned) is encoded consistently in all six places, the per-edge decision of lineIntersects has exactly the rule's decision table over its seven conditions (all 128 valuations of the boolean skeleton of the code, whatever its form), and conversions are index-aligned (R03, R01); (iv) the routed lists of different levels never share storage (R18b).",
 		Decided:     []string{"every vertex of every ring is indexed before snapping (R05)", "only insertCoord adds hot pixels, after the range check (R08)", "every segment incl. the closing one is routed once through the index (R06)", "no input coordinate can reach an output structure; output coordinates are stored pixel centres (R07)", "half-open ownership tables agree and the five border rules of the segment/pixel test are present (R03)", "integer/float conversions are index-aligned (R01)", "per-level values own their storage (R18b)"},
 		NotDecided:  []string{"numeric correctness of lineIntersects / float intersection for every segment-pixel pair", "that spike removal and ring splitting never invent an edge (data dependent; DESIGN F5)", "interior of a segment passing exactly through an excluded pixel corner"},
 	}
@@ -37,7 +37,7 @@ func init() {
 	Props["C05"] = &PropSpec{
 		Level:       "other",
 		Rules:       []string{"R11", "R12", "R13", "R14", "R10", "R06"},
-		Explanation: "Policy clauses, for all polygons and the four flag combinations: a present tile matrix always has at least one polygon (R11); rings below three vertices are diverted before de-duplication and before splitting, emitted only under keep-points-and-lines, after the polygons, and a level is dropped only when the shell collapses; the closing vertex is removed before the size test (R12); winding normalisation precedes routing (R06 under C01) and the configured reversal is the last transformation and covers every ring (R13); each option is read exactly where it takes effect (R14); the orientation predicate is go-spatial's winding.Order.OfPoints, shared by normalisation and split classification (R13); every segment (zero-length ones too) is routed (R06); the repeated-vertex lookup does not go through a lossy int->float->int conversion (R10, the F4 defect class).",
+		Explanation: "Policy clauses, for all polygons and the four flag combinations: a present tile matrix always has at least one polygon (R11); rings below three vertices are diverted before de-duplication and before splitting, emitted only under keep-points-and-lines, after the polygons, and a level is dropped only when the shell collapses; the ring measured is the ring itself or the ring without its last vertex, the latter exactly when it has more than one vertex and first == last (R12); winding normalisation precedes routing (R06 under C01) and the configured reversal is the last transformation and covers every ring, and a hole that becomes a polygon of its own is turned around first (R13); each option is read exactly where it takes effect (R14); the orientation predicate is go-spatial's winding.Order.OfPoints, shared by normalisation and split classification (R13); every segment (zero-length ones too) is routed (R06); the repeated-vertex lookup does not go through a lossy int->float->int conversion (R10, the F4 defect class).",
 		Decided:     []string{"absent-rather-than-empty (R11)", "ring-size guards and keep/drop policy (R12)", "reversal last and complete (R13)", "option reads (R14)", "no lossy round trip on the snapping path (R10)"},
 		NotDecided:  []string{"that splitting yields simple rings with the right orientation for every input (depends on hit maps and float area signs)", "no two equal consecutive vertices"},
 	}
@@ -47,13 +47,13 @@ func init() {
 		Explanation: "Determinism clause, complete: a race-free single-goroutine Go computation is deterministic except for map iteration order, select, scheduling, time, randomness and address-dependent behaviour. R16 shows the snapping call graph (module and dependencies) has none of the latter and writes no package-level state; R15 enumerates every map range and unordered producer (maps.Keys) on that call graph and proves each commutative: per-key stores/appends/deletes with an injective key, set insertion, fresh memory, callee write effects addressed by the iteration key (bottom-up effect summaries), append-only collections whose every later use is order-insensitive (len, max, set conversion, sort before use, commutative loops, followed interprocedurally). R15p does the same below processing.ProcessFeatures. Clause 3 (reverse flag changes direction only): R13 + R14.",
 		Decided:     []string{"clause 1: identical output in every process, over all map iteration orders (R15, R16)", "clause 3: the reverse flag only reverses, last (R13, R14)", "necessary condition of clause 2: every ring is normalised before use (R06 under C01)"},
 		NotDecided:  []string{"clause 2 sufficiency: that winding.Order classifies every valid ring correctly (trusted library)", "float arithmetic being deterministic across platforms"},
-		Assumptions: []string{"callee read effects are not tracked: a callee reading per-level state of another level is caught by R18, not R15", "a sort with a custom comparator is accepted as fixing the order only if the comparator reads nothing but the elements (no map lookups, no calls); it is then assumed to be a strict total order on distinct elements", "standard library functions are classified by a table (pure / output only / writes first argument / commutative sync); anything else inside a map-range loop fails"},
+		Assumptions: []string{"callee read effects are not tracked: a callee reading per-level state of another level is caught by R18, not R15", "a sort with a custom comparator is accepted as fixing the order only if the comparator reads nothing but the elements (no map lookups, no calls) and, where it orders by a struct field, that field is in the frozen identity table (TileMatrix.ID)", "standard library functions are classified by a table (pure / output only / writes first argument / commutative sync); anything else inside a map-range loop fails"},
 	}
 	Props["C08"] = &PropSpec{
 		Level:       "other",
 		Rules:       []string{"R20", "R18", "R18b", "R19", "R09"},
-		Explanation: "For all polygons and id subsets: result keys are exactly requested ids (R20); every access to level-indexed state (maps keyed by Level in snap and pointindex, 40+ sites) uses the level currently being processed, the root level, or the counter of the descent over all levels (R18, with one hop through parameters); the requested set only selects what is recorded and never steers the descent, and a level is dropped only because of its own ring result (R19); values stored per level never share backing storage (R18b); the level arithmetic is shared (R09).",
-		Decided:     []string{"result keyed by requested ids only (R20)", "no cross-level access to per-level state (R18)", "no shared storage between levels (R18b)", "requested set does not influence the descent (R19)"},
+		Explanation: "For all polygons and id subsets: result keys are exactly requested ids (R20); every access to level-indexed state (maps keyed by Level in snap and pointindex, 40+ sites) uses the level currently being processed, the root level, or the counter of the descent over all levels (R18, with one hop through parameters); the requested set only selects what is recorded and never steers the descent, a level is dropped only because of its own ring result, and the deepest requested level is used only to bound the descent and to scale deepest addresses (R19); loops over levels are never nested (R18); values stored per level never share backing storage (R18b); the level arithmetic is shared (R09).",
+		Decided:     []string{"result keyed by requested ids only (R20)", "no cross-level access to per-level state (R18)", "no shared storage between levels (R18b)", "requested set does not influence the descent; ix.deepestLevel only bounds and scales (R19)"},
 		NotDecided:  []string{"that coarser pixel addresses derived from the deepest address are independent of the deepest level — true exactly when the extent divides evenly, the property's own precondition (arithmetic)"},
 	}
 	Props["C09"] = &PropSpec{
@@ -80,14 +80,14 @@ func init() {
 	Props["C12"] = &PropSpec{
 		Level:       "other",
 		Rules:       []string{"R31", "R32", "R33", "R47"},
-		Explanation: "Row-completeness clauses for all (count, positive page size): typestate of the page buffer over all paths — every appended feature is flushed exactly once before WriteFeatures returns (R31); every flushed feature is inserted exactly once through a statement prepared on the page's transaction, which is committed on every normal path, with the extent accumulated over every feature, only through the two known idioms, and merged after commit (R32); attribute/geometry column order agrees between selectSQL, insertSQL, createSQL, ReadFeatures and writeFeatures (R33).",
+		Explanation: "Row-completeness clauses for all (count, positive page size): typestate of the page buffer over all paths — every appended feature is flushed exactly once before WriteFeatures returns (R31); every flushed feature is inserted exactly once through a statement prepared on the page's transaction, which is committed on every normal path, with the extent accumulated over every feature, only through the two known idioms, and merged after commit (R32); attribute/geometry column order agrees between selectSQL, insertSQL, createSQL, ReadFeatures and writeFeatures (R33); the target table is registered from the source table's own description and every catalogue column is scanned into the field it describes (R47).",
 		Decided:     []string{"one flush per buffered feature incl. the final partial page (R31)", "one INSERT per flushed feature in a committed transaction; extent over all rows (R32)", "column order agreement (R33)", "schema (name, columns, geometry column/type, srs) copied field by field for every table (R47)"},
 		NotDecided:  []string{"what SQLite/SpatiaLite do with the statements (rtree triggers, gpkg_contents arithmetic, schema copy)", "dropped Commit error (only matters under I/O faults, outside the quantifier)"},
 	}
 	Props["C13"] = &PropSpec{
 		Level:       "other",
 		Rules:       []string{"R34", "R14", "R35", "R36", "R37", "R45", "R28", "R30", "R11", "R25"},
-		Explanation: "Plumbing clauses for all flag combinations: every flag is declared once, read with its declared kind (urfave/cli returns the zero value silently otherwise), and reaches the option it names; the page size reaches TargetGeopackage.pagesize; overwrite guards os.Remove (R34, R14); same-typed arguments are not swapped (R35); validation gates all work; one target per validated id, stored under and named from that id, removed first under overwrite; tables are processed with source and every target switched to the table before the run and untouched afterwards (R36); the quadtree gate comes first inside validation and every validation error is returned (R37); the target name is the given name with _<id> inserted before exactly its extension (R45); the delivery clauses of the pipeline (R28, R30, R11). Per-table content otherwise follows from C10-C12.",
+		Explanation: "Plumbing clauses for all flag combinations: every flag is declared once, read with its declared kind (urfave/cli returns the zero value silently otherwise), and reaches the option it names; the page size reaches TargetGeopackage.pagesize; os.Remove runs exactly when overwrite is set — never without, and with it on every path to Init (R34, R14); same-typed arguments are not swapped (R35); validation gates all work; one target per validated id, stored under and named from that id, removed first under overwrite; tables are processed with source and every target switched to the table before the run and untouched afterwards (R36); the quadtree gate comes first inside validation and every validation error is returned (R37); the target name is the given name with _<id> inserted before exactly its extension (R45); the delivery clauses of the pipeline (R28, R30, R11) and the join of the writers before the next table is started (R25). Per-table content otherwise follows from C10-C12.",
 		Decided:     []string{"flag table agreement (R34)", "option reads (R14)", "argument order (R35)", "order of operations in the action and in initGPKGTarget (R36)", "validation order (R37)"},
 		NotDecided:  []string{"path.Split/Ext semantics of the standard library for unusual paths", "SQLite behaviour"},
 	}
@@ -108,7 +108,7 @@ func init() {
 	Props["C16"] = &PropSpec{
 		Level:       "other",
 		Rules:       []string{"R39", "R40", "R15j"},
-		Explanation: "For all documents: every hand-written codec reads exactly the keys it writes, json:\"-\" fields are exactly the re-added special keys, the three CRS variants have pairwise distinct required keys and no variant writes another's (R39: decode(encode(v)) cannot change variant or lose a special key). Decoding has no unchecked type assertion, no out-of-range submatch index, no missing-key fall-through, cannot return success without validate.Struct, has the positivity/required constraints on the named fields, parses ids with strconv and returns the error, decodes every array element into a fresh value, and no explicit panic is reachable from decoding in module code (R40); the encoder emits the tile matrices in sorted order independent of map iteration (R15j).",
+		Explanation: "For all documents: every hand-written codec reads exactly the keys it writes, json:\"-\" fields are exactly the re-added special keys, the three CRS variants have pairwise distinct required keys and no variant writes another's (R39: decode(encode(v)) cannot change variant or lose a special key). Decoding has no unchecked type assertion and no assertion whose ok result is discarded, no out-of-range submatch index, no missing-key fall-through, cannot return success without validate.Struct, has the positivity/required constraints on the named fields, parses ids with strconv and returns the error, decodes every array element into a fresh value, and no explicit panic is reachable from decoding in module code (R40); the encoder emits the tile matrices in an order independent of map iteration: sorted by a comparator over an identity field of the elements (TileMatrix.ID, stored under the integer it parses to) (R15j).",
 		Decided:     []string{"reader/writer key agreement and CRS variant exclusivity (R39)", "decode totality and validation (R40)"},
 		NotDecided:  []string{"marshmallow / validator / defaults internals", "float formatting stability of encoding/json", "validate tags on unexported fields are never evaluated ({\"crs\":{\"wkt\":{}}} is accepted)"},
 	}
